@@ -177,7 +177,13 @@ def snapshot_nodes(gw: Gateway):
 
 
 async def _run_impl(h: Hist):
+    """One history on the real gateway.  Received lines are consumed the way an application does it: through ONE
+    `gateway.listen()` generator for as long as it keeps yielding (`async for message in gateway.listen()`); after a
+    step that raised, the generator is finished and the application starts a new one.  Histories whose hash is odd
+    instead fetch every line from a fresh generator (the style of the repo's tests)."""
     gw, tr = build_gateway(h)
+    persistent = (len(h.ops) + len(h.preload) + (0 if h.version is None else len(h.version))) % 3 != 0
+    listener = None
     obs = [{"out": "init", "writes": [], "state": render_state(gw), "nodes": snapshot_nodes(gw),
             "pv": gw.protocol_version, "proto": gw.protocol.VERSION,
             "sbuf": [(k, m.payload) for k, m in gw._message_buffer.set_messages.items()],
@@ -189,12 +195,20 @@ async def _run_impl(h: Hist):
             tr.lines = [line]
             tr.faults = list(faults)
             TIME_STUB.now = tuple(now)
+            if listener is None or not persistent:
+                if listener is not None:
+                    await listener.aclose()
+                listener = gw.listen()
             try:
-                m = await anext(gw.listen())
+                m = await anext(listener)
                 out = render_msg(m)
             except BaseException as e:  # noqa: BLE001
                 out = render_exc(e)
+                listener = None          # an async generator that raised is finished
         elif op[0] == "session":
+            if listener is not None:
+                await listener.aclose()
+                listener = None
             try:
                 await gw.__aexit__(None, None, None)
                 await gw.__aenter__()
@@ -214,6 +228,8 @@ async def _run_impl(h: Hist):
                     "pv": gw.protocol_version, "proto": gw.protocol.VERSION,
                     "sbuf": [(k, m.payload) for k, m in gw._message_buffer.set_messages.items()],
                     "ibuf": list(gw._message_buffer.internal_messages)})
+    if listener is not None:
+        await listener.aclose()
     return obs
 
 
@@ -369,23 +385,23 @@ def gen_line(rng, version, nodes=NODES, profile=None) -> str:
     if r < 0.22:
         return f"{n};{c};0;0;{rng.choice(CHILD_TYPES)};{rng.choice(['desc', '', 'a;b'])}"
     if r < 0.37:
-        return f"{n};{c};1;{rng.choice([0, 0, 1])};{rng.choice(VTYPES)};{rng.choice(['20.5', '1', '', 'on;off', 'é'])}"
+        return f"{n};{c};1;{rng.choice([0, 0, 1])};{rng.choice(VTYPES)};{rng.choice(['20.5', '1', '', 'on;off', 'é', 'Cafe\u0301', '4.7 k\u2126', 'a\u2028b'])}"
     if r < 0.45:
-        return f"{n};{c};2;0;{rng.choice(VTYPES)};"
+        return f"{n};{c};2;{rng.choice([0, 0, 1])};{rng.choice(VTYPES)};"
     if r < 0.50:
-        return f"{n};255;3;0;0;{rng.choice(BATTERY_PAYLOADS)}"
+        return f"{n};255;3;{rng.choice([0, 0, 0, 1])};0;{rng.choice(BATTERY_PAYLOADS)}"
     if r < 0.54:
-        return f"{rng.choice([255, n])};{rng.choice([255, 255, c])};3;0;3;"
+        return f"{rng.choice([255, n])};{rng.choice([255, 255, c])};3;{rng.choice([0, 0, 1])};3;"
     if r < 0.57:
-        return f"{n};255;3;0;6;{rng.choice(['', '0'])}"
+        return f"{n};255;3;{rng.choice([0, 0, 1])};6;{rng.choice(['', '0'])}"
     if r < 0.60:
-        return f"{n};255;3;0;1;"
+        return f"{n};255;3;{rng.choice([0, 0, 1])};1;"
     if r < 0.64:
         return f"0;255;3;0;2;{rng.choice(VERSION_PAYLOADS)}"
     if r < 0.66:
         return f"0;255;3;0;9;log message;with delimiters"
     if r < 0.68:
-        return f"0;255;3;0;14;Gateway startup complete."
+        return f"0;255;3;{rng.choice([0, 0, 1])};14;Gateway startup complete."
     if r < 0.71:
         return f"{n};255;3;0;{rng.choice([11, 12])};{rng.choice(['Sketch', '1.0', ''])}"
     if r < 0.77:
